@@ -103,7 +103,9 @@ def judge_roundtrip(replies, cuts):
                         io.recv_reply()
                         continue
                     r = Reply()
-                    if mode == 'disabled':
+                    if mode in ('disabled', 'recvoff'):
+                        # 'recvoff': the receiving object has enhanced status codes switched off (as the library's client does for
+                        # banner and EHLO replies) while the sender wrote one: the text must come back as it was written
                         r.enhanced_status_code = False
                     r.recv(io)
                     gcode, gtext = r.code, r.message
@@ -295,7 +297,7 @@ def roundtrip_case(draw):
     replies = []
     for _ in range(n):
         text = draw(reply_text())
-        mode = draw(st.sampled_from(['auto', 'auto', 'disabled', 'late:250', 'late:451', 'late:550', 'msgfirst', 'nlfirst']))
+        mode = draw(st.sampled_from(['auto', 'auto', 'disabled', 'late:250', 'late:451', 'late:550', 'msgfirst', 'nlfirst', 'recvoff']))
         if mode == 'disabled' and ESC_LOOK.match(text):
             mode = 'auto'
         replies.append((draw(_codes), text, mode))
@@ -380,7 +382,7 @@ def replay(case):
             return []
         if mode == 'disabled' and ESC_LOOK.match(text):
             return []
-        if mode not in ('auto', 'disabled', 'msgfirst', 'nlfirst') and not re.match(r'^late:[2345]\d\d$', mode):
+        if mode not in ('auto', 'disabled', 'msgfirst', 'nlfirst', 'recvoff') and not re.match(r'^late:[2345]\d\d$', mode):
             return []
     return judge_roundtrip(replies, sorted(set(int(c) for c in case.get('cuts', []))))
 
